@@ -182,7 +182,13 @@ def run_case(case, ctx):
                 elif op == "bandpass":
                     a, b = rd.bandpass(gulp=gulp, quiet=True, description="v").data, fil.bandpass(gulp=gulp, quiet=True, description="v").data
                 elif op == "dedisperse":
-                    dm = 2.0
+                    # largest DM from a small menu whose delays fit in a quarter of the file (domain: maxdelay < nsamps)
+                    dm = 0.0
+                    for cand in (50.0, 10.0, 2.0, 0.5, 0.1):
+                        dl = np.asarray(fil.header.get_dmdelays(cand)).reshape(-1)
+                        if dl.min() >= 0 and dl.max() < max(1, N // 4):
+                            dm = cand
+                            break
                     a, b = rd.dedisperse(dm, gulp=gulp, quiet=True, description="v").data, fil.dedisperse(dm, gulp=gulp, quiet=True, description="v").data
                 else:
                     rd.compute_stats(gulp=gulp, quiet=True, description="v")
